@@ -152,7 +152,23 @@ def _valsem(ctx, which):
     if key not in ctx.extra:
         ctx.extra[key] = getattr(valsem, which)(ctx.prog) or False
     v = ctx.extra[key]
-    return v if v and "raises" not in v else None
+    if v and "raises" in v:
+        # a scenario of the table made the evaluated code raise something no scenario provides for (an unbound local, a TypeError
+        # in the dispatcher): every clause of that table is answered by this
+        return _Raised(v)
+    return v if v else None
+
+
+class _Raised(dict):
+    def __init__(self, v):
+        dict.__init__(self, v)
+        self.msg = "on the scenario table the code %s" % v["raises"]
+
+    def __getitem__(self, k):
+        return self.msg
+
+    def get(self, k, d=None):
+        return self.msg
 
 def rule_short_circuit(ctx, rid="R2.1"):
     prog = ctx.prog
